@@ -53,7 +53,7 @@ BlockStep(p, f) ==
      /\ \A n \in Names, k \in Keys : f[<<n, k>>] \in {"del", "touch"} => pc[n][k] # 0
      /\ Block(p, cur, touched)
 \* a re-open may ask for any partition factors (thor toggles 256 <-> 524288 with --disable-pruner)
-MCReqOpts == {[hf |-> h, df |-> d] : h \in {1, 2, Big}, d \in {1, Big}}
+MCReqOpts == {[hf |-> 2, df |-> 1], [hf |-> Big, df |-> Big]}
 MCNext ==
   \/ \E p \in vers : MayBuildOn(p) /\ \E f \in Changes : BlockStep(p, f)
   \/ NextStore
@@ -61,10 +61,11 @@ MCNext ==
 MCSpec == Init /\ [][MCNext]_vars
 
 OptsOne  == {[hf |-> 1, df |-> Big, skip |-> {}]}
-OptsQuick == {[hf |-> 1, df |-> Big, skip |-> {}], [hf |-> 2, df |-> Big, skip |-> {}],
-              [hf |-> 1, df |-> 1, skip |-> {"a"}], [hf |-> 2, df |-> 2, skip |-> {"a"}]}
-OptsFull == {[hf |-> h, df |-> d, skip |-> s] : h \in {1, 2, Big}, d \in {1, 2, Big}, s \in {{}, {"a"}}}
+OptsQuick == {[hf |-> 1, df |-> Big, skip |-> {}], [hf |-> 2, df |-> 2, skip |-> {"a"}]}
+OptsFour == {[hf |-> 1, df |-> Big, skip |-> {}], [hf |-> 2, df |-> Big, skip |-> {}],
+             [hf |-> 1, df |-> 1, skip |-> {"a"}], [hf |-> 2, df |-> 2, skip |-> {"a"}]}
 OptsTeeth == {[hf |-> h, df |-> Big, skip |-> {}] : h \in {1, 2}}
+OptsHf2  == {[hf |-> 2, df |-> Big, skip |-> {}]}
 OptsAS   == {[hf |-> 1, df |-> d, skip |-> {}] : d \in {1, Big}}
 
 K(a, b) == <<a, b>>
